@@ -333,6 +333,8 @@ class DocGen:
         self.exp = []
         self.scopes = [{}]          # macro meanings: name -> word
         self.pct = [False]          # is % an ordinary character in this scope
+        self.steps = 0              # \stepcounter calls so far (counters are global)
+        self.flag = False           # state of the \newif switch (global)
         self.inarg = 0              # inside a macro argument (already tokenized: \catcode cannot affect its text)
 
     def word(self):
@@ -353,8 +355,17 @@ class DocGen:
     def plain(self, inmath):
         r = self.rng.random()
         k = self.rng.randint(1, 3)
-        if r < 0.25:
+        if r < 0.2:
             self.emit_text()
+        elif r < 0.26:
+            self.src.append('\\stepcounter{cq}'); self.steps += 1
+        elif r < 0.32:
+            if self.rng.random() < 0.5:
+                self.flag = self.rng.random() < 0.6
+                self.src.append('\\zztrue ' if self.flag else '\\zzfalse ')
+            else:
+                w1, w2 = self.word(), self.word()
+                self.src.append('\\ifzz %s\\else %s\\fi ' % (w1, w2)); self.exp.append(w1 if self.flag else w2)
         elif r < 0.45:
             w = self.word()
             self.src.append('\\def\\p%s{%s}' % ('abc'[k - 1], w)); self.scopes[-1][k] = w
@@ -432,13 +443,14 @@ class DocGen:
             self.src.append('\\end{tabular}')
 
     def make(self):
-        pre = ''
+        pre = '\\newcounter{cq}\\newif\\ifzz '
         for k in (1, 2, 3):
             w = self.word()
             pre += '\\gdef\\p%s{%s}' % ('abc'[k - 1], w)
             self.scopes[0][k] = w
         self.body(0, False)
-        return pre + ''.join(self.src), ''.join(self.exp)
+        self.exp.append('N%dN' % self.steps)
+        return pre + ''.join(self.src) + ' N\\arabic{cq}N', ''.join(self.exp)
 
 
 def run_doc(src):
